@@ -106,6 +106,9 @@ func DecText(v any) (string, bool) {
 	return sb.String(), true
 }
 
+// FuncNames maps code pointers of known host functions to their names (filled by the driver).
+var FuncNames = map[uintptr]string{}
+
 // Value projects a Go value the evaluator hands out into the specification's value
 // domain (FValues.tla). Go ints and floats are numbers, typed nil pointers are null.
 func Value(v interface{}) any {
@@ -202,6 +205,9 @@ func value(v interface{}, depth int) any {
 		}
 		return T{"struct", m, hidden}
 	case reflect.Func:
+		if n, ok := FuncNames[rv.Pointer()]; ok {
+			return T{"func", n}
+		}
 		return T{"func", T{"ANY"}}
 	}
 	return T{"other", rv.Kind().String()}
